@@ -3,12 +3,15 @@
 demo passes without / fails with the change), run the listed checks against it, and store it as /verif/seeded/PID-mN/."""
 import json, os, shutil, subprocess, sys
 pid, checks = sys.argv[1], sys.argv[2]
+rnd = sys.argv[3] if len(sys.argv) > 3 else ""
+seed_root = "/tmp/seed%s_%s" % (rnd, pid)
+tag = ("r%s" % rnd) if rnd else ""
 for m in ("m1", "m2", "m3"):
-    d = "/tmp/seed_%s/mutants/%s" % (pid, m)
+    d = "%s/mutants/%s" % (seed_root, m)
     if not os.path.exists(d + "/patch.diff"):
         continue
-    p = subprocess.run(["/verif/harness/try_mutant.py", "%s-%s" % (pid, m), d + "/patch.diff", "--checks", checks,
-                        "--demo", d + "/demo.py", "--seed-dir", "/tmp/seed_%s" % pid], capture_output=True, text=True)
+    p = subprocess.run(["/verif/harness/try_mutant.py", "%s-%s%s" % (pid, tag, m), d + "/patch.diff", "--checks", checks,
+                        "--demo", d + "/demo.py", "--seed-dir", seed_root], capture_output=True, text=True)
     try:
         res = json.loads(p.stdout)
     except Exception:
@@ -21,7 +24,7 @@ for m in ("m1", "m2", "m3"):
     print(pid, m, "confirmed" if confirmed else "NOT-CONFIRMED %s" % {k: res.get(k) for k in ("applies", "tests", "demo_without_change_rc", "demo_with_change_rc")}, caught)
     if not confirmed:
         continue
-    out = "/verif/seeded/%s-%s" % (pid, m)
+    out = "/verif/seeded/%s-%s%s" % (pid, tag, m)
     os.makedirs(out, exist_ok=True)
     for f in ("patch.diff", "demo.py", "README.md"):
         if os.path.exists(os.path.join(d, f)):
